@@ -42,7 +42,7 @@ def _handle_file(result: Dict[str, Union[str, Path]]) -> NoReturn:
     path: Path = Path(result.get("path"))  # type: ignore
     logging.info(f"Generating {path}")
 
-    path.parent.mkdir(exist_ok=True)
+    path.parent.mkdir(parents=True, exist_ok=True)
     path.write_text(str(result.get("contents")))
 
 
